@@ -38,6 +38,10 @@ type DecodeReq struct {
 	Reader  ReaderSpec   `json:"reader"`
 	Trunc   int          `json:"trunc"` // stream is cut to this many bytes (-1: no truncation)
 	Corrupt *CorruptSpec `json:"corrupt,omitempty"`
+	// RawType/Raw: decode these bytes as they are into a fresh receiver of the registered type (fuzzing); the other
+	// object fields are then unused and the corrupted-input oracle applies.
+	RawType string `json:"rawtype,omitempty"`
+	Raw     []byte `json:"raw,omitempty"`
 }
 
 // StepRes is the outcome of decoding one object of the stream.
@@ -147,6 +151,9 @@ func corruptByte(b byte, mode int) byte {
 // runDecode executes the experiment. It never asserts anything: the oracles live in the parent.
 func runDecode(req DecodeReq) (res DecodeRes) {
 	res.Rest = -1
+	if req.RawType != "" {
+		return runRaw(req)
+	}
 	p, err := req.Params.Build()
 	if err != nil {
 		res.Err = "parameters: " + err.Error()
@@ -318,5 +325,67 @@ func runDecode(req DecodeReq) (res DecodeRes) {
 	case "bufio":
 		res.Rest = bufr.Buffered() + len(transport.data) - transport.off
 	}
+	return
+}
+
+// runRaw decodes arbitrary bytes into a fresh receiver (same measurements as a corrupted-input step).
+func runRaw(req DecodeReq) (res DecodeRes) {
+	res.Rest = -1
+	e := registry[req.RawType]
+	if e == nil {
+		res.Err = "unknown type " + req.RawType
+		return
+	}
+	res.Lens = []int{len(req.Raw)}
+	recv := e.fresh()
+	var st StepRes
+	var ms0, ms1 runtime.MemStats
+	runtime.ReadMemStats(&ms0)
+	derr, pm := guarded(func() (err error) {
+		switch req.Reader.Kind {
+		case "unmarshal":
+			err = recv.UnmarshalBinary(req.Raw)
+			st.N = int64(len(req.Raw))
+		case "bufio":
+			st.N, err = recv.ReadFrom(bufio.NewReaderSize(newChunkReader(req.Raw, req.Reader.Chunk), req.Reader.Size))
+		default:
+			st.N, err = recv.ReadFrom(buffer.NewBuffer(req.Raw))
+		}
+		return
+	})
+	runtime.ReadMemStats(&ms1)
+	st.Alloc = ms1.TotalAlloc - ms0.TotalAlloc
+	st.Panic = pm
+	if derr != nil {
+		st.Err = derr.Error()
+		if st.Err == "" {
+			st.Err = "error with empty message"
+		}
+	}
+	if st.Err == "" && st.Panic == "" {
+		st.Diff = "raw" // there is no original to compare with
+		_, pm := guarded(func() error {
+			re, err := recv.MarshalBinary()
+			if err != nil {
+				st.ReDiff = "re-encoding failed: " + err.Error()
+				return nil
+			}
+			if len(re) != recv.BinarySize() {
+				st.ReDiff = fmt.Sprintf("accepted object: len(MarshalBinary)=%d but BinarySize=%d", len(re), recv.BinarySize())
+				return nil
+			}
+			again := e.fresh()
+			if err := again.UnmarshalBinary(re); err != nil {
+				st.ReDiff = "accepted object does not decode after re-encoding: " + err.Error()
+			} else if re2, err := again.MarshalBinary(); err != nil || !bytes.Equal(re, re2) {
+				st.ReDiff = fmt.Sprintf("accepted object does not round-trip: encode(decode(encode(x))) != encode(x) (err=%v)", err)
+			}
+			return nil
+		})
+		if pm != "" {
+			st.ReDiff = "panic while re-encoding the decoded object: " + pm
+		}
+	}
+	res.Steps = []StepRes{st}
 	return
 }
